@@ -103,7 +103,20 @@ type teDur int64
 type teID uint16
 type teArr [3]uint16
 
-const teKinds = 17
+// te4 has blank (reserved / padding) fields, top-level and nested: encoding/binary
+// writes them as zero bytes and skips them when reading; they occupy their bytes.
+type te4 struct {
+	Kind uint8
+	_    [3]byte
+	Off  uint32
+	_    uint16
+	In   struct {
+		A int16
+		_ int16
+	}
+}
+
+const teKinds = 18
 
 // every plain builtin fixed-size scalar kind that encoding/binary supports
 var teScalars = []struct {
@@ -144,7 +157,7 @@ func typeEncCase(which int, p []byte, big bool) (interface{}, []byte) {
 		}
 		return r.next()
 	}
-	if k := which % teKinds; k >= 8 {
+	if k := which % teKinds; k >= 8 && k < len(teScalars) {
 		sc := teScalars[k]
 		x := nx()
 		switch k {
@@ -161,6 +174,16 @@ func typeEncCase(which int, p []byte, big bool) (interface{}, []byte) {
 		return sc.conv(x), putOrd(nil, x, sc.w, big)
 	}
 	switch which % teKinds {
+	case 17:
+		k, off, a := nx(), nx(), nx()
+		v := te4{Kind: uint8(k), Off: uint32(off)}
+		v.In.A = int16(a)
+		ref := []byte{byte(k), 0, 0, 0}
+		ref = putOrd(ref, off&0xffffffff, 4, big)
+		ref = append(ref, 0, 0)
+		ref = putOrd(ref, a&0xffff, 2, big)
+		ref = append(ref, 0, 0)
+		return v, ref
 	case 0:
 		a, b0, b1, b2, c := nx(), nx(), nx(), nx(), nx()
 		v := te1{A: uint16(a), B: [3]int8{int8(b0), int8(b1), int8(b2)}, C: int32(c)}
@@ -222,6 +245,8 @@ func typeEncoderFor(which int, big bool, ctor int) (encode.Encoder, error) {
 	switch k := which % teKinds; k {
 	case 8, 9, 10, 11, 12, 13, 14, 15, 16:
 		zero, ptr = teScalars[k].zero, teScalars[k].ptr
+	case 17:
+		zero, ptr = te4{}, &te4{}
 	case 0:
 		zero, ptr = te1{}, &te1{}
 	case 1:
